@@ -83,6 +83,15 @@ FAULTS = [
     ("unknown-option", lambda rng: [rng.choice(["--foo", "-x", "--testnett"])]),
     ("account-missing-value", lambda rng: ["--account"]),
 ]
+# an option whose value is missing because ANOTHER OPTION follows it (argparse's own heuristics decide here, so these
+# vectors are run on the real program and judged by the oracle only; the model's canonical grammar does not cover them)
+ORACLE_ONLY_FAULTS = [
+    ("file-missing-value", lambda rng: [rng.choice(["-f", "--file"])]),
+    ("file-empty-value", lambda rng: ["--file="]),
+    ("account-missing-value-mid", lambda rng: ["--account"]),
+    ("interval-missing-values", lambda rng: ["--interval"]),
+    ("interval-one-value-mid", lambda rng: ["--interval", "3"]),
+]
 SUB_FAULTS = [
     ("mnemonic-count", lambda rng: ["from-mnemonic", " ".join(["abandon"] * rng.choice([1, 11, 13, 14, 16, 23, 25]))]),
     ("mnemonic-spaces", lambda rng: ["from-mnemonic", rng.choice([" " + MN12, MN12 + " ", MN12.replace(" ", "  ", 1),
@@ -106,6 +115,9 @@ SUB_FAULTS = [
     ("new-positional", lambda rng: ["new", "extra"]),
     ("password-not-allowed", lambda rng: ["from-bip39-seed", "--password", "x", SEED]),
 ]
+
+
+LITERAL_BUDGET = 20
 
 
 def cases(rng, tier):
@@ -132,6 +144,28 @@ def cases(rng, tier):
                 g = ["--file", "@F"] + g
             branch = "fault-file-" + fs
         yield "cli %s %s %s" % (fs, ob(), enc(g + s)), branch
+
+
+def extra_checks(rng, tier, g_, info):
+    n = 0
+    plan = []
+    for rep in range(1 if tier == "quick" else 20):
+        for name, f in ORACLE_ONLY_FAULTS:
+            rest = [t for t in globals_valid(rng) if t not in ("-f", "--file", "@F")]
+            if "--testnet" not in rest and "--paranoia" not in rest:
+                rest = ["--testnet"] + rest
+            opt_pos = [k for k in range(len(rest)) if rest[k].startswith("-")]
+            # the faulty option directly before EVERY other option, and directly before the sub-command
+            for k in (opt_pos + [len(rest)] if rep == 0 else [rng.choice(opt_pos + [len(rest)])]):
+                plan.append((name, rest[:k] + f(rng) + rest[k:] + sub_valid(rng)))
+    for name, argv in plan:
+        line = "cli absent %s %s" % (hx(bytes(rng.getrandbits(8) for _ in range(40))), enc(argv))
+        out = impl.run(line)
+        n += 1
+        msg = oracle(line, out)
+        if msg:
+            yield line, "option with a missing value (%s): %s" % (name, msg)
+    info["missing_value_vectors"] = n
 
 
 def nontrivial(line, out):
